@@ -164,7 +164,38 @@ func isFieldSel(v ssa.Value, owner, name string) (base ssa.Value, ok bool) {
 	if ok && o == owner && n == name {
 		return b, true
 	}
+	// owner "~" with name "type:T": a field of type T of any struct type of the module, whatever the
+	// struct and the field are called (used where the base value pins down which struct is meant)
+	if ok && owner == "~" && strings.HasPrefix(name, "type:") && o != "" && !strings.Contains(o, ".") {
+		if fieldSelType(v) == name[len("type:"):] {
+			return b, true
+		}
+	}
 	return nil, false
+}
+
+// fieldSelType renders the type of the field selected by a FieldAddr/Field, relative to the module's root package.
+func fieldSelType(v ssa.Value) string {
+	var t types.Type
+	var idx int
+	switch x := v.(type) {
+	case *ssa.FieldAddr:
+		t, idx = deref(x.X.Type()), x.Field
+	case *ssa.Field:
+		t, idx = x.X.Type(), x.Field
+	default:
+		return ""
+	}
+	st, _ := t.Underlying().(*types.Struct)
+	if st == nil {
+		return ""
+	}
+	return types.TypeString(st.Field(idx).Type(), func(p *types.Package) string {
+		if p.Path() == modPath {
+			return ""
+		}
+		return p.Name()
+	})
 }
 
 // loadedFrom: if v is a load (*addr) return addr.
